@@ -15,9 +15,15 @@
            output port on fileno R[f];  PS,i,f / WS,i,f the same with the shutdown flag (as (chibi net) open-net-io);
            X,i close-port;  Z,i,j write a line through output port R[j], read it through input port R[i]
            (observation Zok / Zbad:<why> / Zskip);  after every G also |own=<slot>:<ok|bad>,... as in c16_hist.scm
+           round 4: a leading A on an allocating op (AK,i  AC,i,a,b  AE,i,k,v): the op's allocation TRIGGERS an automatic
+           collection -- the heap is first filled with unreferenced objects of the same size until no free chunk can hold one
+           more, so sexp_alloc's first-fit search fails inside the operation itself (inside sexp_make_ephemeron for AE) and
+           sexp_gc runs there, with the operands held only by the history's slots; no observation is printed for it.  Whether
+           exactly one collection happened inside each such operation is reported on the T line.
    output: H <n> <observation>/<observation>...      one observation per G, same text as harness/c16_hist.scm:
                e<id>=<broken>,<key fingerprint>,<value fingerprint>;...|fds=<open descriptors - baseline>|gc=<number of the G's first collection>
            A <n> <id>:<heap index>:<offset>,...       address of every object the history allocated
+           T <n> <achieved>/<requested>               automatic collections that happened exactly inside an A-prefixed operation
            DONE */
 #include <stdio.h>
 #include <stdlib.h>
@@ -175,6 +181,25 @@ static const char* transfer (sexp in, sexp o, int n) {
   return strcmp(got, msg) ? "Zbad:other-data" : "Zok";
 }
 
+/* round 4: fill the heap with garbage of `need` bytes per object until sexp_try_alloc (first fit: a chunk of size >= need)
+   must fail for one more; returns 0 if a collection happened while filling (then the fill itself was the trigger) */
+static long auto_req, auto_ok;
+static int fits (size_t need) {
+  sexp_heap h; sexp_free_list q;
+  for (h = sexp_context_heap(ctx); h; h = h->next)
+    for (q = h->free_list->next; q; q = q->next)
+      if (q->size >= need) return 1;
+  return 0;
+}
+static int fill_heap (int vec) {
+  size_t need = sexp_heap_align(vec ? sexp_sizeof(vector) + sizeof(sexp) : sexp_sizeof(pair)) + SEXP_GC_PAD;
+  unsigned long g0 = (unsigned long)sexp_context_gc_count(ctx); long guard = 0;
+  while (fits(need) && guard++ < 100000000L) {
+    if (vec) sexp_make_vector(ctx, SEXP_ONE, SEXP_FALSE); else sexp_cons(ctx, SEXP_FALSE, SEXP_FALSE);
+  }
+  return (unsigned long)sexp_context_gc_count(ctx) == g0;
+}
+
 static int run_history (char *ops, FILE *out) {
   char *save = NULL, *tok; long a[4]; int na, first = 1, i, nop = 0; char name[8]; sexp x, y; unsigned long gcno;
   if (!strncmp(ops, "N", 1) && (ops[1] == ';' || !ops[1])) new_context();
@@ -188,6 +213,13 @@ static int run_history (char *ops, FILE *out) {
     for (i = 0; *p && *p != ',' && i < 7; ) name[i++] = *p++;
     name[i] = 0; na = 0;
     while (*p == ',' && na < 4) a[na++] = strtol(p + 1, &p, 10);
+    int autop = 0, filled = 0; unsigned long g_before = 0;
+    if (name[0] == 'A' && (name[1] == 'K' || name[1] == 'C' || name[1] == 'E') && !name[2]) {
+      autop = 1; memmove(name, name + 1, strlen(name));
+      auto_req++;
+      filled = fill_heap(name[0] == 'K');
+      g_before = (unsigned long)sexp_context_gc_count(ctx);
+    }
 #define OP(s) (!strcmp(name, s))
     if (OP("N")) {
       if (nop != 0) return 0;
@@ -261,6 +293,7 @@ static int run_history (char *ops, FILE *out) {
       first = 0;
       observe(out, gcno);
     } else return 0;
+    if (autop && filled && (unsigned long)sexp_context_gc_count(ctx) == g_before + 1) auto_ok++;
   }
   return 1;
 }
@@ -275,11 +308,13 @@ int main (int argc, char **argv) {
     sp = strchr(line, ' ');
     if (!sp) continue;
     printf("H %ld ", n);
+    auto_req = auto_ok = 0;
     ok = run_history(sp + 1, stdout);
     printf("%s\n", ok ? "" : "|ERROR");
     printf("A %ld ", n);
     for (id = 1; id <= nids && id < MAXIDS; id++) printf("%s%lx:%d:%lu", id > 1 ? "," : "", id, addr_heap[id], addr_off[id]);
     printf("\n");
+    if (auto_req) printf("T %ld %ld/%ld\n", n, auto_ok, auto_req);
     fflush(stdout);
     n++;
   }
